@@ -196,6 +196,44 @@ let handle kind c =
           (Printf.sprintf "mode file %s: local/ after=%s, mode local gives %s; requests=%d" (show_file fs.fs_mode)
              (show_opt il) (show_opt ll) (List.length reqs))
     end
+  | "rot" ->
+    let m1tag = next c in let m1 = next_bytes c in
+    let m2tag = next c in let m2 = next_bytes c in
+    let preadd = next_bool c in
+    let expired = next_bool c in
+    let ch1 = next_bool c in let cr1 = next_int c in
+    let ch2 = next_bool c in let cr2 = next_int c in
+    let ch3 = next_bool c in let cr3 = next_int c in
+    let ch4 = next_bool c in let cr4 = next_int c in
+    let fs0 = { fs_mode = file_of m1tag m1; fs_local = Some []; fs_upload = None } in
+    let stage name ops st (ch, cr) =
+      let (effs, st') = exec Z.ltb Z0 ops st in
+      let madd = List.exists (function ECounterAdd -> true | _ -> false) effs in
+      let mfile = List.exists (function ECounterFile -> true | _ -> false) effs in
+      (* a first file both creates and is then written: "changed" is about files that existed before the stage *)
+      if mfile <> (cr > 0) then diff (name ^ "-created") ~model:(string_of_bool mfile) ~impl:(string_of_int cr);
+      let mch = madd && not mfile in
+      if mch <> ch then diff (name ^ "-changed") ~model:(string_of_bool mch) ~impl:(string_of_bool ch);
+      st' in
+    let st1 = stage "open" [OpRotate true; OpAdd] (fs0, PUnopened) (ch1, cr1) in
+    let st2 = stage "modechange" (OpSetMode (file_of m2tag m2) :: (if preadd then [OpAdd] else [])) st1 (ch2, cr2) in
+    let off2 = beq (mode_of (fst st2).fs_mode) m_off in
+    let st3 = stage "rotation" [OpRotate expired] st2 (ch3, cr3) in
+    let _ = stage "after" [OpAdd; OpAdd] st3 (ch4, cr4) in
+    (* the property on the implementation's observations: while the mode file records off no
+       count file is created or changed *)
+    if off2 then begin
+      if ch2 || cr2 > 0 then
+        prop "recording-until-rotation"
+          (Printf.sprintf "mode file %s -> %s: the running process changed its count file after the mode was set to off (changed=%b created=%d)"
+             (show_file (file_of m1tag m1)) (show_file (file_of m2tag m2)) ch2 cr2);
+      if ch3 || cr3 > 0 || ch4 || cr4 > 0 then
+        prop "rotation_off"
+          (Printf.sprintf "mode file %s -> %s, then rotate1 (clock past the end: %b): rotation changed=%b created=%d, increments after it changed=%b created=%d"
+             (show_file (file_of m1tag m1)) (show_file (file_of m2tag m2)) expired ch3 cr3 ch4 cr4)
+    end;
+    if beq (mode_of fs0.fs_mode) m_off && (ch1 || cr1 > 0) then
+      prop "snapshot_unchanged" "mode off from the start: the first rotate1 created or changed a count file"
   | "cproc" ->
     let mtag = next c in
     let mbytes = next_bytes c in
